@@ -47,6 +47,19 @@ func newTarget(kind string) (*target, string, error) {
 	t.http = httptest.NewServer(http.HandlerFunc(func(w http.ResponseWriter, r *http.Request) {
 		t.hits.Add(1)
 		w.Header().Set("Content-Type", "application/json")
+		if strings.Contains(r.URL.Path, "e500") {
+			w.WriteHeader(http.StatusInternalServerError)
+		}
+		if strings.Contains(r.URL.Path, "ebody") {
+			// a response whose body breaks off: status line and headers are fine, the body is shorter than announced
+			if hj, ok := w.(http.Hijacker); ok {
+				if c, _, err := hj.Hijack(); err == nil {
+					_, _ = c.Write([]byte("HTTP/1.1 200 OK\r\nContent-Type: application/json\r\nContent-Length: 100\r\n\r\n{\"auth_key\":"))
+					_ = c.Close()
+					return
+				}
+			}
+		}
 		_, _ = w.Write([]byte(`{"auth_key":"k123","items":[1,2,3]}`))
 	}))
 	return t, strings.TrimPrefix(t.http.URL, "http://"), nil
@@ -133,6 +146,136 @@ func grpcScenarioFile() string {
 	return c11lib.WriteFile(".yaml", string(b))
 }
 
+// ---------------------------------------------------------------- scenarios with a failing step
+//
+// steps=<N> failat=<K> fail=<what>: one scenario of N steps; step K (1-based) carries the fault, every other step is a
+// plain templated request that uses the shared `[next]` iterator and a postprocessor.
+//
+//	none      no fault
+//	status    the target answers 500 (not an error for the gun)
+//	conn      the target is stopped before the shot (every step fails to connect)
+//	body      the response body breaks off before its announced length (http only)
+//	post      the step's second postprocessor (assert/response status_code) rejects the normal response
+//	postbody  assert/response body pattern not found
+//	postjson  var/jsonpath path not found (http only)
+//	tmpl      the step's template fails to execute
+//	pre       the step's preprocessor refers to an unknown variable source
+//	call      unknown gRPC method (grpc only)
+//	payload   payload does not fit the method's input message (grpc only)
+
+func faultParams(kv map[string]string) (steps, failat int, fail string) {
+	steps, _ = strconv.Atoi(kv["steps"])
+	failat, _ = strconv.Atoi(kv["failat"])
+	fail = kv["fail"]
+	if fail == "" {
+		fail = "none"
+	}
+	if steps < 1 {
+		steps = 1
+	}
+	if failat < 1 || failat > steps {
+		failat = steps
+	}
+	return
+}
+
+func faultSources() []any {
+	return []any{
+		map[string]any{"name": "users", "type": "file/csv", "file": usersCSV(), "fields": []string{"login", "pass"},
+			"ignore_first_line": true, "delimiter": ","},
+		map[string]any{"name": "global", "type": "variables", "variables": map[string]any{"g": "gg"}},
+	}
+}
+
+func httpFaultScenarioFile(kv map[string]string) string {
+	steps, failat, fail := faultParams(kv)
+	var reqs []any
+	var names []string
+	for i := 1; i <= steps; i++ {
+		name := "r" + strconv.Itoa(i)
+		names = append(names, name)
+		uri := "/s" + strconv.Itoa(i) + "/{{.request." + name + ".preprocessor.u.login}}"
+		mapping := map[string]string{"u": "source.users[next]"}
+		posts := []any{map[string]any{"type": "var/jsonpath", "mapping": map[string]string{"token": "$.auth_key"}}}
+		if i == failat {
+			switch fail {
+			case "status":
+				uri = "/e500" + uri
+			case "body":
+				uri = "/ebody" + uri
+			case "post":
+				posts = append(posts, map[string]any{"type": "assert/response", "status_code": 201})
+			case "postbody":
+				posts = append(posts, map[string]any{"type": "assert/response", "body": []string{"no-such-text"}})
+			case "postjson":
+				posts = append(posts, map[string]any{"type": "var/jsonpath", "mapping": map[string]string{"x": "$.no.such.key"}})
+			case "tmpl":
+				uri += "/{{index .source.global.g 99}}"
+			case "pre":
+				mapping["x"] = "source.nosuch[next]"
+			}
+		}
+		reqs = append(reqs, map[string]any{
+			"name": name, "method": "GET", "tag": "t" + strconv.Itoa(i), "uri": uri,
+			"headers":        map[string]string{"X-G": "{{.source.global.g}}", "X-Const": "c"},
+			"preprocessor":   map[string]any{"mapping": mapping},
+			"templater":      map[string]any{"type": "text"},
+			"postprocessors": posts,
+		})
+	}
+	cfg := map[string]any{
+		"variable_sources": faultSources(),
+		"requests":         reqs,
+		"scenarios":        []any{map[string]any{"name": "s1", "weight": 1, "min_waiting_time": 0, "requests": names}},
+	}
+	b, _ := yaml.Marshal(cfg)
+	return c11lib.WriteFile(".yaml", string(b))
+}
+
+func grpcFaultScenarioFile(kv map[string]string) string {
+	steps, failat, fail := faultParams(kv)
+	var calls []any
+	var names []string
+	for i := 1; i <= steps; i++ {
+		name := "c" + strconv.Itoa(i)
+		names = append(names, name)
+		call := "target.TargetService.Hello"
+		payload := `{"name":"{{.request.` + name + `.preprocessor.u.login}}"}`
+		mapping := map[string]string{"u": "source.users[next]"}
+		posts := []any{map[string]any{"type": "assert/response", "payload": []string{"Hello"}}}
+		if i == failat {
+			switch fail {
+			case "post":
+				posts = append(posts, map[string]any{"type": "assert/response", "status_code": 201})
+			case "postbody":
+				posts = append(posts, map[string]any{"type": "assert/response", "payload": []string{"no-such-text"}})
+			case "tmpl":
+				payload = `{"name":"{{index .source.global.g 99}}"}`
+			case "pre":
+				mapping["x"] = "source.nosuch[next]"
+			case "call":
+				call = "target.TargetService.Nope"
+			case "payload":
+				payload = `{"nosuchfield":1}`
+			}
+		}
+		calls = append(calls, map[string]any{
+			"name": name, "tag": "t" + strconv.Itoa(i), "call": call,
+			"metadata":       map[string]string{"x-g": "{{.source.global.g}}", "x-const": "c"},
+			"payload":        payload,
+			"preprocessors":  []any{map[string]any{"type": "prepare", "mapping": mapping}},
+			"postprocessors": posts,
+		})
+	}
+	cfg := map[string]any{
+		"variable_sources": faultSources(),
+		"calls":            calls,
+		"scenarios":        []any{map[string]any{"name": "s1", "weight": 1, "min_waiting_time": 0, "requests": names}},
+	}
+	b, _ := yaml.Marshal(cfg)
+	return c11lib.WriteFile(".yaml", string(b))
+}
+
 func rawAmmo() string {
 	var b strings.Builder
 	for i, r := range []string{
@@ -163,7 +306,14 @@ func poolYAML(kind, addr string, kv map[string]string, n int, rps map[string]any
 		switch kind {
 		case "uri":
 			ammo["type"] = "uri"
-			ammo["file"] = c11lib.WriteFile(".uri", "[Host: example.org]\n[X-A: a]\n/one t1\n/two t2\n[X-B: b]\n/three\n/four t4\n")
+			pre := ""
+			switch kv["fail"] {
+			case "status":
+				pre = "/e500"
+			case "body":
+				pre = "/ebody"
+			}
+			ammo["file"] = c11lib.WriteFile(".uri", "[Host: example.org]\n[X-A: a]\n"+pre+"/one t1\n"+pre+"/two t2\n[X-B: b]\n"+pre+"/three\n"+pre+"/four t4\n")
 		case "uripost":
 			ammo["type"] = "uripost"
 			ammo["file"] = c11lib.WriteFile(".uripost", "[X-A: a]\n5 /p1 t1\nhello\n7 /p2 t2\nworld!!\n[X-B: b]\n3 /p3\nabc\n")
@@ -180,11 +330,19 @@ func poolYAML(kind, addr string, kv map[string]string, n int, rps map[string]any
 	case "httpscen":
 		gun["type"] = "http/scenario"
 		ammo["type"] = "http/scenario"
-		ammo["file"] = httpScenarioFile()
+		if kv["steps"] != "" {
+			ammo["file"] = httpFaultScenarioFile(kv)
+		} else {
+			ammo["file"] = httpScenarioFile()
+		}
 	case "grpcscen":
 		gun["type"] = "grpc/scenario"
 		ammo["type"] = "grpc/scenario"
-		ammo["file"] = grpcScenarioFile()
+		if kv["steps"] != "" {
+			ammo["file"] = grpcFaultScenarioFile(kv)
+		} else {
+			ammo["file"] = grpcScenarioFile()
+		}
 	case "grpcjson":
 		gun["type"] = "grpc"
 		if sc > 0 {
